@@ -26,11 +26,12 @@ import (
 	"anndbverif/vrt/fakes"
 	"anndbverif/world"
 
+	"github.com/coreos/etcd/raft/raftpb"
 	pb "github.com/marekgalovic/anndb/protobuf"
 )
 
 type event struct {
-	Kind string `json:"ev"` // join joinlossy joindead remove snapshot restart
+	Kind string `json:"ev"` // join joinlossy joindead joinsnaplost remove snapshot restart deafen heal
 	Node uint64 `json:"n"`
 	Via  uint64 `json:"via,omitempty"`
 }
@@ -43,8 +44,14 @@ func (e event) String() string {
 		return fmt.Sprintf("join(n%d via n%d, reply stream lost; then retried)", e.Node, e.Via)
 	case "joindead":
 		return fmt.Sprintf("join(n%d via [unreachable seed, n%d])", e.Node, e.Via)
+	case "joinsnaplost":
+		return fmt.Sprintf("join(n%d via n%d; the first snapshot message sent to it fails)", e.Node, e.Via)
 	case "remove":
 		return fmt.Sprintf("remove(n%d via n%d)", e.Node, e.Via)
+	case "deafen":
+		return fmt.Sprintf("n%d stops receiving appends and snapshots (lags behind)", e.Node)
+	case "heal":
+		return "lagging members receive everything again"
 	}
 	return fmt.Sprintf("%s(n%d)", e.Kind, e.Node)
 }
@@ -135,11 +142,28 @@ func (w *wld) join(id, via uint64, lossy bool, deadSeedFirst bool) (string, stri
 
 func (w *wld) apply(e event) (string, string) {
 	switch e.Kind {
-	case "join", "joinlossy", "joindead":
+	case "join", "joinlossy", "joindead", "joinsnaplost":
 		w.counts.joins++
-		if k, d := w.join(e.Node, e.Via, e.Kind == "joinlossy", e.Kind == "joindead"); k != "" {
+		if e.Kind == "joinsnaplost" {
+			failed := false
+			w.FailSend = func(from uint64, m raftpb.Message) bool {
+				if m.Type == raftpb.MsgSnap && m.To == e.Node && !failed {
+					failed = true
+					return true
+				}
+				return false
+			}
+		}
+		k, d := w.join(e.Node, e.Via, e.Kind == "joinlossy", e.Kind == "joindead")
+		w.FailSend = nil
+		if k != "" {
 			return k, d
 		}
+	case "deafen":
+		w.Deaf[e.Node] = true
+	case "heal":
+		w.Deaf = map[uint64]bool{}
+		w.Settle(6)
 	case "remove":
 		w.counts.removes++
 		var err error
@@ -194,6 +218,9 @@ func (w *wld) check() (string, string) {
 		if _, member := w.members[n.ID]; !member {
 			continue
 		}
+		if w.Deaf[n.ID] {
+			continue // lagging by construction: "eventually" starts when it hears again
+		}
 		got := n.Srv.VerifConn().Nodes()
 		for id, addr := range w.members {
 			a, ok := got[id]
@@ -220,7 +247,7 @@ func (w *wld) check() (string, string) {
 func (w *wld) canon() string {
 	var sb strings.Builder
 	for _, n := range w.Nodes {
-		fmt.Fprintf(&sb, "|n%d crashed=%v removed=%v ", n.ID, n.Crashed, w.removed[n.ID])
+		fmt.Fprintf(&sb, "|n%d crashed=%v removed=%v deaf=%v ", n.ID, n.Crashed, w.removed[n.ID], w.Deaf[n.ID])
 		if !n.Crashed && n.Srv != nil {
 			sb.WriteString(view(n.Srv.VerifConn().Nodes()))
 			var st string
@@ -288,7 +315,24 @@ func enabled(w *wld) []event {
 	return out
 }
 
+// directed histories (both tiers) with a lagging member and lost snapshot messages - deeper than the BFS reaches:
+// X = 0x800000000000001a.
+func directed() [][]event {
+	const X = 0x800000000000001a
+	return [][]event{
+		// a joiner that needs a snapshot (the membership log is compacted) and whose first snapshot message is lost
+		{{Kind: "join", Node: 2, Via: 1}, {Kind: "snapshot", Node: 1}, {Kind: "joinsnaplost", Node: X, Via: 1}, {Kind: "restart", Node: X}},
+		{{Kind: "snapshot", Node: 1}, {Kind: "joinsnaplost", Node: 2, Via: 1}, {Kind: "join", Node: X, Via: 2}},
+		// a removal requested from a member that has not heard of the node's join yet
+		{{Kind: "join", Node: 2, Via: 1}, {Kind: "join", Node: X, Via: 1}, {Kind: "deafen", Node: X}, {Kind: "join", Node: 26, Via: 1}, {Kind: "remove", Node: 26, Via: X}, {Kind: "heal"}},
+		// a member that missed a join is caught up by a snapshot, compacts its own log and restarts
+		{{Kind: "join", Node: 2, Via: 1}, {Kind: "join", Node: X, Via: 1}, {Kind: "deafen", Node: X}, {Kind: "join", Node: 26, Via: 1}, {Kind: "snapshot", Node: 1}, {Kind: "snapshot", Node: 2}, {Kind: "heal"}, {Kind: "snapshot", Node: X}, {Kind: "restart", Node: X}},
+		{{Kind: "join", Node: 2, Via: 1}, {Kind: "join", Node: X, Via: 2}, {Kind: "deafen", Node: 2}, {Kind: "join", Node: 26, Via: 1}, {Kind: "snapshot", Node: 1}, {Kind: "heal"}, {Kind: "snapshot", Node: 2}, {Kind: "restart", Node: 2}, {Kind: "restart", Node: 1}},
+	}
+}
+
 type result struct {
+	Directed   int
 	St         seq.Stats
 	Violations []struct {
 		Key, Desc string
@@ -339,6 +383,21 @@ func main() {
 			}
 		}
 		var res result
+		// the directed histories are spread over the shards
+		for di, h := range directed() {
+			if di%sn != si {
+				continue
+			}
+			w, k, d := build(h)
+			w.Close()
+			res.Directed += len(h)
+			if k != "" {
+				res.Violations = append(res.Violations, struct {
+					Key, Desc string
+					Path      []event
+				}{k + ":directed", d, h})
+			}
+		}
 		res.St = seq.BFS(seq.Config[*wld, event]{
 			Depth: depth, Workers: 1, Deadline: time.Now().Add(budget),
 			Build: func(wi int, path []event) (*wld, string, string) {
@@ -369,13 +428,15 @@ func main() {
 	run := ev.Start("C20", "model_checking")
 	const n = 8
 	total := seq.Stats{Outcomes: map[string]int{}, Complete: true}
+	directedEvents := 0
 	shard.Run(n, n, nil, func(i int, raw []byte) error {
 		var r result
 		if err := json.Unmarshal(raw, &r); err != nil {
 			return err
 		}
+		directedEvents += r.Directed
 		total.States += r.St.States
-		total.Transitions += r.St.Transitions
+		total.Transitions += r.St.Transitions + r.Directed
 		total.Complete = total.Complete && r.St.Complete
 		for k, v := range r.St.Outcomes {
 			total.Outcomes[k] += v
@@ -389,6 +450,7 @@ func main() {
 		"servers are built by the real Server.setup(); joins go through the real NodesManager.Join / AddNode handshake, removals through RemoveNode; the zero-group snapshot offset is lowered to 0",
 		"one event at a time, the cluster settles in between; a lost handshake reply makes the joining process exit (as cmd/anndb does) and be started again",
 		"a removed node's process is stopped; only members' views are compared",
+		"directed histories (5, both tiers) add a lagging member (appends and snapshots to it are lost until it is healed; its view is not judged while it lags) and a snapshot message whose RPC fails once",
 	}
 	run.Finish(ev.Coverage{
 		"states":                        total.States,
@@ -398,6 +460,7 @@ func main() {
 		"distinct_nontrivial":           total.States,
 		"rule":                          fmt.Sprintf("BFS to depth %d over join / lossy join / remove / snapshot / restart histories on clusters growing from 1 to %d real servers; after every event every live member's address book must equal the acknowledged membership with the announced addresses; distinct = canonical digest of all views + zero-group status", depth, limits.maxNode),
 		"outcome_classes":               total.Outcomes,
+		"directed_history_events":       directedEvents,
 		"samples":                       []interface{}{[]event{{Kind: "join", Node: 2, Via: 1}, {Kind: "snapshot", Node: 2}, {Kind: "restart", Node: 2}}},
 		"exhaustive":                    total.Complete,
 	})
